@@ -16,6 +16,7 @@ CONSTANTS Mode, MaxOps, MaxHist,
           ConcQuotas, ConcKinds,                                       \* "conc": quota values, kinds of creation
           Main,                                                        \* the tenant the generated calls are for; the others
                                                                        \* of Tenants are neighbours holding a little data
+          SeedMain,                                                    \* Main starts with nodes 1 and 2 (relationship-only alphabets)
           CrashOn,                                                     \* "seq": crashes inside calls are explored
           Race                                                         \* KF_C18_CheckThenActRace is part of Next
 
@@ -58,7 +59,10 @@ RECURSIVE SeedFor(_)
 SeedFor(ts) == IF ts = <<>> THEN <<>>
                ELSE << [op |-> "CreateNode", t |-> Head(ts), id |-> 1, labels |-> <<"A">>, p |-> 1],
                        [op |-> "CreateEdge", t |-> Head(ts), id |-> 1, src |-> 1, dst |-> 2, ty |-> "T", p |-> 0] >> \o SeedFor(Tail(ts))
-SeedOps == SeedFor(Nbrs)
+MainSeed == IF SeedMain THEN << [op |-> "CreateNode", t |-> Main, id |-> 1, labels |-> <<"A">>, p |-> 0],
+                                [op |-> "CreateNode", t |-> Main, id |-> 2, labels |-> <<"A">>, p |-> 0] >>
+            ELSE <<>>
+SeedOps == MainSeed \o SeedFor(Nbrs)
 \* the script's first record: quotas (the same for every tenant), the tenants to register (Main first), the seed calls
 OpenRec(qn, qe) == [op |-> "Open", qn |-> qn, qe |-> qe, ts |-> <<Main>> \o Nbrs, seed |-> SeedOps]
 
